@@ -45,14 +45,24 @@ def all_corruptions(repo):
                     out.append({"section": sec, "key": key, "how": "above-maximum", "value": ps["maximum"] + 1})
             if ps.get("type") == "string" and ("enum" in ps or "const" in ps):
                 out.append({"section": sec, "key": key, "how": "unknown-enum"})
-    for sec in SECTION_SCHEMA:
+    for sec, sch in SECTION_SCHEMA.items():
         out.append({"section": sec, "key": None, "how": "section-missing"})
+        out.append({"section": sec, "key": None, "how": "section-wrong-type", "value": [None, [], 0, "x", False][len(sec) % 5]})
+        schema = json.load(open(os.path.join(repo, "ghedesigner", "schemas", sch + ".schema.json")))
+        if schema.get("required"):
+            out.append({"section": sec, "key": None, "how": "section-empty"})  # an object that has lost all of its keys
     return out
 
 
 def apply_corruption(doc, c):
     if c["how"] == "section-missing":
         del doc[c["section"]]
+    elif c["how"] == "section-empty":
+        doc[c["section"]] = {}
+    elif c["how"] == "section-wrong-type":
+        doc[c["section"]] = c["value"]
+    elif c["how"] == "loads-empty-list":  # passes the tool's schemas; there is nothing to design for
+        doc["loads"] = {"ground_loads": []}
     elif c["how"] == "missing":
         del doc[c["section"]][c["key"]]
     elif c["how"] == "wrong-type":
@@ -109,9 +119,9 @@ def _cli_check(a):
             rc, tail = run_cli(repo, [inp, outdir], tmp)
         written = os.path.isdir(outdir) and all(os.path.exists(os.path.join(outdir, f)) for f in
                                                 ("SimulationSummary.json", "BoreFieldData.csv", "Loadings.csv", "Gfunction.csv", "TimeDependentValues.csv"))
-        if c and c["how"] == "loads-without-list":
+        if c and c["how"] in ("loads-without-list", "loads-empty-list"):
             if rc == 0 and not written:
-                return False, {"why": "exit status 0 although no design output was produced (input passes the schemas but has no load list)", "mode": mode, "signature": "exit0-no-output"}
+                return False, {"why": "exit status 0 although no design output was produced (input passes the schemas but has no usable load list)", "corruption": c, "mode": mode, "signature": "exit0-no-output"}
             return True, {"rc": rc}
         invalid = bool(c) and c["how"] != "lower-case"
         if invalid and rc == 0:
@@ -144,7 +154,11 @@ def _cli_gen(rng):
              {"mode": "convert-unsupported", "corruption": None}, {"mode": "no-output-dir", "corruption": None},
              {"mode": "run", "corruption": {"how": "lower-case", "lower": False}},
              {"mode": "validate-only", "corruption": {"section": "design", "key": None, "how": "section-missing"}},
-             {"mode": "run", "corruption": {"how": "loads-without-list"}}]
+             {"mode": "run", "corruption": {"how": "loads-without-list"}},
+             {"mode": "validate-only", "corruption": {"section": "simulation", "key": "num_months", "how": "missing"}},  # leaves "simulation": {}
+             {"mode": "run", "corruption": {"how": "loads-empty-list"}},
+             {"mode": "validate-only", "corruption": {"section": "pipe", "key": None, "how": "section-empty"}},
+             {"mode": "run", "corruption": {"section": "borehole", "key": None, "how": "section-wrong-type", "value": None}}]
     if k < len(fixed):
         return fixed[k]
     cs = all_corruptions(os.environ.get("VERIF_REPO", "/repo"))
@@ -152,7 +166,7 @@ def _cli_gen(rng):
 
 
 native(f"{M_}:run_manager_from_cli", _cli_check, _cli_gen, None,
-       bound="the real entry point (subprocess) on a valid near-square input and on its single-field corruptions (every required key missing, numbers replaced by strings, values outside minimum/maximum, unknown enum/const, missing sections) x {--validate-only, full run}; unsupported --convert; missing output directory; names in lower/title case")
+       bound="the real entry point (subprocess) on a valid near-square input and on its single-field corruptions (every required key missing, numbers replaced by strings, values outside minimum/maximum, unknown enum/const, missing sections, sections emptied to {} or replaced by null / [] / a scalar) x {--validate-only, full run}; inputs that pass the schemas but carry no usable loads (no list, empty list); unsupported --convert; missing output directory; names in lower/title case")
 
 
 # ---- deductive part: the status logic of the command line -----------------------------------------------------------------------
@@ -229,3 +243,36 @@ contract(f"{V_}:validate_input_file", dict(input_file_path=PathS), name=f"{V_}:v
          ensures=[("accepts-exactly-when-every-section-is-valid", lambda E: (E.result == 0) == And(*[SECV(k) == 0 for k in range(len(_VALIDATORS))])),
                   ("counts-the-failing-sections", lambda E: E.result == sum(SECV(k) for k in range(len(_VALIDATORS))))],
          returns=Int).applies = lambda env: False
+
+
+# ---- "exit status zero only when the output files were written": the two output methods return normally only with a design / with results ---------
+_OM = "ghedesigner.output:OutputManager"
+contract(f"{_OM}.__init__", dict(self=ObjOf(_OM), design=OpaqueOf("search"), time=OpaqueOf("x"), project_name=OpaqueOf("str"), notes=OpaqueOf("str"), author=OpaqueOf("str"),
+                                 model_name=OpaqueOf("str"), load_method=OpaqueOf("x")),
+         name=f"{_OM}.__init__#with-design", raises={"Exception": None}, returns=NoneT(),
+         notes="abstract (C19 verifies the table builders): building the tables from a search result").applies = lambda env: not (env.get("design") is None)
+contract(f"{_OM}.__init__", dict(self=ObjOf(_OM), design=NoneT(), time=OpaqueOf("x"), project_name=OpaqueOf("str"), notes=OpaqueOf("str"), author=OpaqueOf("str"),
+                                 model_name=OpaqueOf("str"), load_method=OpaqueOf("x")),
+         name=f"{_OM}.__init__#without-design", raises={"AttributeError": None}, ensures=[("cannot-build-tables-from-no-design", lambda E: False)], returns=NoneT(),
+         options={"no_normal_return": True},
+         notes="ASSUMED (Python semantics of the body: its first statement reads design.ghe): with design=None the constructor raises AttributeError").applies = lambda env: env.get("design") is None
+contract(f"{_OM}.write_all_output_files", dict(self=ObjOf(_OM), output_directory=PathS, file_suffix=OpaqueOf("str")), name=f"{_OM}.write_all_output_files#caller",
+         raises={"Exception": None}, returns=NoneT(), notes="abstract: writes the seven output files or raises").applies = lambda env: True
+
+OUTPUT_METHODS = []
+for _vn, _search in (("with-design", OpaqueOf("search")), ("without-design", NoneT())):
+    _n = f"{M_}:GHEManager.prepare_results#body-{_vn}"
+    contract(f"{M_}:GHEManager.prepare_results", dict(self=ObjOf(f"{M_}:GHEManager", _search=_search, _search_time=OpaqueOf("x"), results=NoneT()), project_name=OpaqueOf("str"),
+                                                        note=OpaqueOf("str"), author=OpaqueOf("str"), iteration_name=OpaqueOf("str")),
+             name=_n, raises={"Exception": None, "AttributeError": None},
+             ensures=[("returns-normally-only-with-results-built-from-a-design", lambda E: And(not (E.old.self._search is None), not (E.self.results is None)))],
+             assigns=writes("self.results"), returns=NoneT(),
+             **({"options": {"no_normal_return": True}} if _vn == "without-design" else {})).applies = lambda env: False
+    OUTPUT_METHODS.append(_n)
+for _vn, _res in (("with-results", ObjOf(_OM)), ("without-results", NoneT())):
+    _n = f"{M_}:GHEManager.write_output_files#body-{_vn}"
+    contract(f"{M_}:GHEManager.write_output_files", dict(self=ObjOf(f"{M_}:GHEManager", results=_res), output_directory=PathS, output_file_suffix=OpaqueOf("str")),
+             name=_n, raises={"Exception": None, "AttributeError": None},
+             ensures=[("returns-normally-only-when-there-were-results-to-write", lambda E: not (E.old.self.results is None))],
+             returns=NoneT(), **({"options": {"no_normal_return": True}} if _vn == "without-results" else {})).applies = lambda env: False
+    OUTPUT_METHODS.append(_n)
